@@ -431,6 +431,11 @@ def c15(ctx):
         symbol_cases(ctx, "huffman", 5, 4, "c15")
     for c in ("zero_weight", "tie", "single_symbol"):
         ctx.require(c)
+    # impl -> spec: large alphabets (weights beyond TLC's integers, code words longer than 64 bits)
+    trace = os.path.join(ctx.work, "huffman.ndjson")
+    ctx.vh("drive_huffman", extra=["--trace", trace])
+    ctx.validate_trace("TraceHuffman", trace, invariants=["AllOK"], what="Huffman codebooks of large alphabets")
+    ctx.require("codeword_longer_than_64_bits")
 
 
 @prop("C17")
@@ -475,7 +480,84 @@ def c20(ctx):
 
 
 def selftest():
-    return 0
+    """Demonstrates the binding: the tiny integer types mirror the primitives; corrupted or truncated recorded traces are
+    rejected by the trace specifications; a corrupted expectation in a replay case is reported by the harness."""
+    import json, random
+    ctx = core.Ctx("selftest", "quick", 0)
+    failures = []
+    rep = ctx.vh("selftest_tiny")
+    if ctx.violations:
+        failures.append("tiny integer types disagree with the primitives: %s" % ctx.violations[0]["detail"])
+    print("selftest: tiny types vs u8/u16: %d comparisons" % rep["checks"])
+    base = os.path.join(ctx.work, "st")
+    ctx.vh("drive_ans", extra=["--w", "8", "--s", "16", "--precs", "1,2,3,4,5,6,7,8", "--n", "1500", "--trace", base])
+    def validate(module, trace, consts, invs):
+        c2 = core.Ctx("selftest_inner", "quick", 0)
+        ok = c2.validate_trace(module, trace, consts, invariants=invs, what="selftest")
+        shutil_rm(c2.work)
+        return ok
+    import shutil
+    def shutil_rm(p):
+        shutil.rmtree(p, ignore_errors=True)
+    exact = [json.loads(l) for l in open(base + ".exact.ndjson")]
+    if not validate("TraceAns", base + ".exact.ndjson", {"W": 8, "S": 16}, ["StateInv"]):
+        failures.append("unmodified exact trace rejected")
+    # (a) corrupt one field of one event
+    idx = [i for i, e in enumerate(exact) if e["ev"] == "enc" and i > 50][10]
+    bad = [dict(e) for e in exact]; bad[idx]["state"] = bad[idx]["state"] ^ 1
+    open(base + ".bad1.ndjson", "w").write("\n".join(json.dumps(e) for e in bad) + "\n")
+    if validate("TraceAns", base + ".bad1.ndjson", {"W": 8, "S": 16}, ["StateInv"]):
+        failures.append("exact trace with one corrupted state field was ACCEPTED")
+    # (b) drop one event
+    bad = exact[:idx] + exact[idx + 1:]
+    open(base + ".bad2.ndjson", "w").write("\n".join(json.dumps(e) for e in bad) + "\n")
+    if validate("TraceAns", base + ".bad2.ndjson", {"W": 8, "S": 16}, ["StateInv"]):
+        failures.append("exact trace with one dropped event was ACCEPTED")
+    # (c) abstract trace: change the words of a confirming export / the symbol of a pop
+    ab = [json.loads(l) for l in open(base + ".abs.ndjson")]
+    if not validate("AbsAns", base + ".abs.ndjson", {}, ["Report"]):
+        failures.append("unmodified abstract trace rejected")
+    seen = {}; key = [0, [], []]; target = None
+    for i, e in enumerate(ab):
+        if e["ev"] == "base": key = [e["id"], [], []]
+        elif e["ev"] == "enc":
+            if not key[2] and key[1] and key[1][-1] == [e["model"], e["sym"]]: key[1] = key[1][:-1]
+            else: key[2] = key[2] + [[e["model"], e["sym"]]]
+        elif e["ev"] == "dec":
+            if key[2]: key[2] = key[2][:-1]
+            else: key[1] = key[1] + [[e["model"], e["sym"]]]
+        elif e["ev"] == "export":
+            k = json.dumps([key, e["how"]])
+            if k in seen and e["words"]: target = i
+            seen[k] = True
+    if target is None:
+        failures.append("no confirming export in the abstract trace (vacuous)")
+    else:
+        bad = [dict(e) for e in ab]; bad[target]["words"] = ["dead"] + bad[target]["words"][1:]
+        open(base + ".bad3.ndjson", "w").write("\n".join(json.dumps(e) for e in bad) + "\n")
+        if validate("AbsAns", base + ".bad3.ndjson", {}, ["Report"]):
+            failures.append("abstract trace with a corrupted re-visited export was ACCEPTED")
+    pops = [i for i, e in enumerate(ab) if e["ev"] == "dec"]
+    bad = [dict(e) for e in ab]; j = pops[len(pops) // 2]; bad[j]["sym"] = bad[j]["sym"] + 1
+    open(base + ".bad4.ndjson", "w").write("\n".join(json.dumps(e) for e in bad) + "\n")
+    if validate("AbsAns", base + ".bad4.ndjson", {}, ["Report"]):
+        failures.append("abstract trace with a corrupted popped symbol was ACCEPTED")
+    # (d) corrupted expectation in a replay case
+    cases = os.path.join(ctx.work, "st_cases.ndjson")
+    ctx.tlc("MC_Ans", {"W": 2, "S": 4, "MaxInit": 2, "MaxBulk": 1}, invariants=["TypeInv", "Emit"], constraint="Bound", emit_to=cases)
+    lines = [json.loads(l) for l in open(cases)]
+    k = next(i for i, c in enumerate(lines) if c["enc"])
+    lines[k]["enc"][0][3] = (lines[k]["enc"][0][3] + 1) % 16
+    open(cases, "w").write("\n".join(json.dumps(c) for c in lines) + "\n")
+    before = len(ctx.violations)
+    ctx.vh("replay", mode="c06", infile=cases)
+    if len(ctx.violations) == before:
+        failures.append("replay with a corrupted expected state reported nothing")
+    shutil.rmtree(ctx.work, ignore_errors=True)
+    for f in failures:
+        print("SELFTEST FAILURE:", f)
+    print("selftest: %s" % ("FAILED" if failures else "passed (corrupted traces and expectations are rejected)"))
+    return 2 if failures else 0
 
 
 def replay(pid, path):
